@@ -309,8 +309,23 @@ pub fn run_case(case: &Value, out: &mut Out) {
     }
 
     // read back through the library's reader (structure-only cases stop at the produced bytes)
-    if !case["readback"].as_bool().unwrap_or(true) {
+    if case["readback"].as_bool() == Some(false) {
         return;
+    }
+    // "small": the samples above 1 MiB of a history of several GiB are located but not read
+    let mut big_ids: Vec<(u32, u32)> = Vec::new();
+    if case["readback"].as_str() == Some("small") {
+        let mut counts: std::collections::HashMap<u32, u32> = std::collections::HashMap::new();
+        for c in case["calls"].as_array().map(|v| v.as_slice()).unwrap_or(&[]) {
+            if c["op"].as_str() == Some("write") && c["valid"].as_bool().unwrap_or(true) {
+                let t = c["t"].as_u64().unwrap_or(0) as u32;
+                let k = counts.entry(t).or_insert(0);
+                *k += 1;
+                if c["len"].as_u64().unwrap_or(0) > (1 << 20) {
+                    big_ids.push((t, *k));
+                }
+            }
+        }
     }
     let mut rs = s.clone();
     rs.seek(SeekFrom::Start(pos)).unwrap();
@@ -357,8 +372,10 @@ pub fn run_case(case: &Value, out: &mut Out) {
     for t in 1..=ntr {
         let n = reader.sample_count(t).unwrap_or(0);
         for k in ids_to_read(n, &mut rng) {
-            let r = guarded(|| reader.read_sample(t, k));
-            out.ev(sample_event(t, k, r));
+            if !big_ids.contains(&(t, k)) {
+                let r = guarded(|| reader.read_sample(t, k));
+                out.ev(sample_event(t, k, r));
+            }
             let r = guarded(|| reader.sample_offset(t, k));
             match r {
                 Ok(Ok(o)) => out.ev(json!({"e":"offset","t":t,"k":k,"res":"ok","off":big(o)})),
